@@ -76,6 +76,16 @@ class DefaultList(Generic[T]):
     def __iter__(self) -> Iterator[T]:
         return iter(self._list)
 
+    def __eq__(self, other: object) -> bool:
+        if not isinstance(other, DefaultList):
+            return NotImplemented
+        # entries still holding the default value carry no information
+        default = self._default_factory()
+        short, long = sorted((self._list, other._list), key=len)
+        return long[: len(short)] == short and all(
+            v == default for v in long[len(short) :]
+        )
+
     def __str__(self) -> str:
         return str(self._list)
 
@@ -183,6 +193,11 @@ class Function:
         """
         return {i: v for i, v in enumerate(self._value) if v != 0}
 
+    def __eq__(self, other: object) -> bool:
+        if not isinstance(other, Function):
+            return NotImplemented
+        return self.to_dict() == other.to_dict()
+
     def __str__(self) -> str:
         parts = (
             f"{i} -> {v if v is not None else '∞'}" for i, v in enumerate(self._value)
@@ -201,6 +216,12 @@ class TableMethod:
         self._processing_queue: Deque[int] = Deque()
         self._current_gap: Tuple[int, int] = (1, 1)
         self._rule_holding_extra_terms: Set[int] = set()
+
+    def __eq__(self, other: object) -> bool:
+        """Check if all stored information is the same."""
+        if not isinstance(other, TableMethod):
+            return NotImplemented
+        return self.__dict__ == other.__dict__
 
     @property
     def function(self) -> Dict[int, Optional[int]]:
@@ -635,6 +656,17 @@ class RuleDBForest(RuleDBAbstract):
         self.table_method = TableMethod()
         self._already_empty: Set[int] = set()
         self._rule_cache = tuple(rule_cache)
+
+    def __eq__(self, other: object) -> bool:
+        """Check if all stored information is the same."""
+        if not isinstance(other, RuleDBForest):
+            return NotImplemented
+        return (
+            self.reverse == other.reverse
+            and self.table_method == other.table_method
+            and self._already_empty == other._already_empty
+            and self._rule_cache == other._rule_cache
+        )
 
     # Implementation of RuleDBAbstract
 
